@@ -21,6 +21,8 @@ pub enum Op {
     ValuesPanic(usize),
     ValuesFromPanic(usize, usize),
     SelectFrom(usize),
+    /// a select whose first item is `*` followed by j - 1 values
+    SelectFromStar(usize),
     OrDefaultValues,
     OrDefaultValuesMany(u32),
 }
@@ -53,10 +55,16 @@ fn row_exprs(tags: &[i64]) -> Vec<SimpleExpr> {
 fn select_with(tags: &[i64]) -> SelectStatement {
     let mut s = Query::select();
     for t in tags {
-        s.expr(Expr::val(*t));
+        if *t == STAR {
+            s.column(Asterisk); // a wildcard is ONE select item for the column count
+        } else {
+            s.expr(Expr::val(*t));
+        }
     }
     s
 }
+/// the tag standing for a `*` select item
+const STAR: i64 = -1;
 
 impl Ref {
     fn row_tags(&self, m: usize, k: i64) -> Vec<i64> {
@@ -124,6 +132,9 @@ impl Model for InsertModel {
         for j in 0..=3 {
             v.push(Op::SelectFrom(j));
         }
+        for j in 1..=3 {
+            v.push(Op::SelectFromStar(j));
+        }
         v.push(Op::OrDefaultValues);
         v.push(Op::OrDefaultValuesMany(2));
         v.push(Op::OrDefaultValuesMany(3));
@@ -190,8 +201,11 @@ impl Model for InsertModel {
                     (false, Ok(())) => return Err(Fail::new("accepted-mismatched-row", format!("values_from_panic([{a},{b}]) was accepted for {} columns", r.cols.len()))),
                 }
             }
-            Op::SelectFrom(j) => {
-                let tags: Vec<i64> = (0..*j).map(|i| 500 + 10 * (r.accepted + 1) + i as i64).collect();
+            Op::SelectFrom(j) | Op::SelectFromStar(j) => {
+                let mut tags: Vec<i64> = (0..*j).map(|i| 500 + 10 * (r.accepted + 1) + i as i64).collect();
+                if matches!(op, Op::SelectFromStar(_)) {
+                    tags[0] = STAR;
+                }
                 let got = s.select_from(select_with(&tags)).map(|_| ());
                 match (expect_row(r, *j), got) {
                     (Ok(()), Ok(())) => {
@@ -224,6 +238,7 @@ impl Model for InsertModel {
             Op::Columns(_) | Op::ColumnsAlt(_) => "columns",
             Op::Values(_) | Op::ValuesPanic(_) | Op::ValuesFromPanic(..) => "row",
             Op::SelectFrom(_) => "select",
+            Op::SelectFromStar(_) => "select",
             Op::OrDefaultValues | Op::OrDefaultValuesMany(_) => "default",
         }
         .to_string()
@@ -331,6 +346,7 @@ fn parse_insert(d: Dialect, sql: &str, vals: &[Value]) -> Result<Parsed, String>
                     other => return Err(format!("placeholder #{} bound to {:?}", idx + 1, other)),
                 }
             }
+            Tok::Punct(p) if p == "*" => STAR,
             other => return Err(format!("expected a cell, got {:?}", other)),
         };
         *i += 1;
